@@ -1,7 +1,137 @@
-(* C17 — pipeline placeholder; replaced by the real statements *)
-From Gdsl.Model Require Import Base NodeOps.
-From Gdsl.Proofs Require Import NodeLemmas.
+(* C17 — Concurrent operations on sync nodes terminate and serialise.  EXPLICITLY PARTIAL.
+   Model: coq/model/Conc.v. Every call of src/sync_*/node/mod.rs is a program of atomic critical sections `Step u w k` (lock
+   node u for reading/writing, run k on the current heap, unlock); threads interleave at these steps (cstep, run_sched); a
+   panic inside a critical section holding a write guard poisons that node (Abort (Some v)). gstep is the same semantics with
+   explicit guards (ACQUIRE may block; BODY+RELEASE). The tie to the code: the deterministic scheduler replays the model's
+   schedules on real threads and compares the lock-point sequence, results, panics, poisoned locks and the final graph.
+   PROVED for every heap, every number of threads and every program: lock discipline, deadlock freedom, panic freedom of
+   programs without isolate, multiset mirror at quiescence for connect/try_connect/query programs, agreement of the two
+   semantics. REFUTED (c17_refuted_*, concrete schedules by vm_compute, each reproduced on the implementation): the full
+   property — no panic, serialisable outcome — which fails because every mutation is two or more separately locked critical
+   sections (D11). These are the known findings of KNOWN_FINDINGS.txt; no theorem claims serialisability. *)
+From Gdsl.Model Require Import Spec Conc.
+From Gdsl.Proofs Require Import ConcProof.
 
-Theorem C17_placeholder_to_nil : forall (E : Type) v, to_ v (@nil (nat * E)) = [].
-Proof. exact to_nil. Qed.
-Print Assumptions C17_placeholder_to_nil.
+(* in every reachable configuration a thread holds at most one guard, and only for the critical section it is parked at *)
+Theorem c17_one_guard_per_thread :
+  forall (K V E : Type) (keqb : K -> K -> bool) (directed : bool) (h : heap K V E)
+         (progs : list (list (call K E))) (c : gconfig K V E),
+       greach keqb directed (ginit keqb directed h progs) c ->
+       (forall tid : nat, length (filter (fun g : guard => g_tid g =? tid) (gc_held c)) <= 1) /\
+       (forall g : guard,
+        In g (gc_held c) ->
+        exists (t : thread K V E) (u : nat) (w : bool) (k : heap K V E -> heap K V E * prog K V E),
+          nth_error (c_threads (gc_cfg c)) (g_tid g) = Some t /\
+          t_status t = TRun /\ t_cur t = Some (Step u w k) /\ g_node g = u /\ g_write g = w).
+Proof. exact one_guard_per_thread. Qed.
+Print Assumptions c17_one_guard_per_thread.
+
+(* no reachable configuration is deadlocked: while some thread is unfinished, some thread can move *)
+Theorem c17_no_deadlock :
+  forall (K V E : Type) (keqb : K -> K -> bool) (directed : bool) (h : heap K V E)
+         (progs : list (list (call K E))) (c : gconfig K V E),
+       greach keqb directed (ginit keqb directed h progs) c -> ~ deadlocked keqb directed c.
+Proof. exact no_deadlock. Qed.
+Print Assumptions c17_no_deadlock.
+
+(* programs without isolate never panic and never poison a lock, under any schedule *)
+Theorem c17_no_isolate_no_panic :
+  forall (K V E : Type) (keqb : K -> K -> bool) (directed : bool) (h : heap K V E)
+         (progs : list (list (call K E))) (fuel : nat) (sched : list nat),
+       (forall p : list (call K E), In p progs -> no_isolate K E p) ->
+       let c := fst (run_sched keqb directed fuel (init_config keqb directed h progs) sched []) in
+       c_poisoned c = [] /\ (forall t : thread K V E, In t (c_threads c) -> t_status t <> TPanic).
+Proof. exact no_isolate_no_panic. Qed.
+Print Assumptions c17_no_isolate_no_panic.
+
+(* connect/query-only programs: once all threads are done, out- and in-lists mirror as multisets for every pair *)
+Theorem c17_connect_quiescent_mirror :
+  forall (K V E : Type) (keqb : K -> K -> bool) (directed : bool) (h : heap K V E)
+         (progs : list (list (call K E))) (fuel : nat) (sched : list nat),
+       (forall u v : nat, Permutation (to_ v (outs h u)) (to_ u (ins h v))) ->
+       (forall p : list (call K E), In p progs -> only_connect_query K E p) ->
+       let c := fst (run_sched keqb directed fuel (init_config keqb directed h progs) sched []) in
+       all_done c = true ->
+       forall u v : nat, Permutation (to_ v (outs (c_heap c) u)) (to_ u (ins (c_heap c) v)).
+Proof. exact connect_quiescent_mirror. Qed.
+Print Assumptions c17_connect_quiescent_mirror.
+
+(* the same with try_connect added *)
+Theorem c17_connect_try_quiescent_mirror :
+  forall (K V E : Type) (keqb : K -> K -> bool) (directed : bool) (h : heap K V E)
+         (progs : list (list (call K E))) (fuel : nat) (sched : list nat),
+       (forall u v : nat, Permutation (to_ v (outs h u)) (to_ u (ins h v))) ->
+       (forall p : list (call K E), In p progs -> ocq_ext K E p) ->
+       let c := fst (run_sched keqb directed fuel (init_config keqb directed h progs) sched []) in
+       all_done c = true ->
+       forall u v : nat, Permutation (to_ v (outs (c_heap c) u)) (to_ u (ins (c_heap c) v)).
+Proof. exact connect_try_quiescent_mirror. Qed.
+Print Assumptions c17_connect_try_quiescent_mirror.
+
+(* every configuration reachable with explicit guards is reachable by atomic critical sections *)
+Theorem c17_guards_refine_atomic :
+  forall (K V E : Type) (keqb : K -> K -> bool) (directed : bool) (h : heap K V E)
+         (progs : list (list (call K E))) (c : gconfig K V E),
+       greach keqb directed (ginit keqb directed h progs) c ->
+       creach K V E keqb directed (init_config keqb directed h progs) (gc_cfg c).
+Proof. exact gstep_refines_cstep. Qed.
+Print Assumptions c17_guards_refine_atomic.
+
+(* and conversely (with no guard held) *)
+Theorem c17_atomic_refines_guards :
+  forall (K V E : Type) (keqb : K -> K -> bool) (directed : bool) (h : heap K V E)
+         (progs : list (list (call K E))) (c : config K V E),
+       creach K V E keqb directed (init_config keqb directed h progs) c ->
+       exists g : gconfig K V E,
+         greach keqb directed (ginit keqb directed h progs) g /\ gc_cfg g = c /\ gc_held g = [].
+Proof. exact cstep_refines_gstep. Qed.
+Print Assumptions c17_atomic_refines_guards.
+
+(* REFUTATION: isolate || connect panics and poisons a lock *)
+Theorem c17_refuted_panic :
+  exists (h : heap nat nat nat) (progs : list (list (call nat nat))) (sched : list nat),
+         let c := run_n true h progs sched in
+         (exists t : thread nat nat nat, In t (c_threads c) /\ t_status t = TPanic) /\ c_poisoned c <> [].
+Proof. exact c17_refuted_panic. Qed.
+Print Assumptions c17_refuted_panic.
+
+(* REFUTATION: connect || disconnect leaves a half-edge at quiescence and disconnect reports EdgeNotFound *)
+Theorem c17_refuted_half_edge :
+  exists (h : heap nat nat nat) (progs : list (list (call nat nat))) (sched : list nat),
+         let c := run_n true h progs sched in
+         all_done c = true /\
+         ~ Permutation (to_ 1 (outs (c_heap c) 0)) (to_ 0 (ins (c_heap c) 1)) /\
+         (exists t : thread nat nat nat, nth_error (c_threads c) 1 = Some t /\ t_results t = [RO ErrNotFound]).
+Proof. exact c17_refuted_half_edge. Qed.
+Print Assumptions c17_refuted_half_edge.
+
+(* REFUTATION: two connects of one pair: outgoing and incoming order differ *)
+Theorem c17_refuted_order :
+  exists (h : heap nat nat nat) (progs : list (list (call nat nat))) (sched : list nat),
+         let c := run_n true h progs sched in
+         all_done c = true /\ outs (c_heap c) 0 = [(1, 7); (1, 8)] /\ ins (c_heap c) 1 = [(0, 8); (0, 7)].
+Proof. exact c17_refuted_order. Qed.
+Print Assumptions c17_refuted_order.
+
+(* REFUTATION: two try_connect of one pair both succeed *)
+Theorem c17_refuted_try :
+  exists (h : heap nat nat nat) (progs : list (list (call nat nat))) (sched : list nat),
+         let c := run_n true h progs sched in
+         all_done c = true /\
+         map (t_results (E:=nat)) (c_threads c) = [[RO OkU]; [RO OkU]] /\
+         outs (c_heap c) 0 = [(1, 7); (1, 8)].
+Proof. exact c17_refuted_try. Qed.
+Print Assumptions c17_refuted_try.
+
+(* REFUTATION: undirected iteration concurrent with a connect yields an entry twice *)
+Theorem c17_refuted_undirected_iter :
+  exists (h : heap nat nat nat) (progs : list (list (call nat nat))) (sched : list nat),
+         let c := run_n false h progs sched in
+         all_done c = true /\
+         (exists
+            (t : thread nat nat nat) (l l1 : list (nat * nat * nat)) (x : nat * nat * nat) 
+          (l2 l3 : list (nat * nat * nat)),
+            nth_error (c_threads c) 0 = Some t /\ t_results t = [REdges l] /\ l = l1 ++ x :: l2 ++ x :: l3).
+Proof. exact c17_refuted_undirected_iter. Qed.
+Print Assumptions c17_refuted_undirected_iter.
+
